@@ -104,21 +104,78 @@ func c18Oracle(ll *sst.LevelList, c *sst.Compactor) string {
 // c18FailFS makes the Save of newly created files fail while `fail` is set (a table write that returns an error).
 type c18FailFS struct {
 	storage.FileSystem
-	fail bool
+	fail bool // Save of files created now fails
+	mu   sync.Mutex
+	// read faults: while armed, ReadAt on the named file at or beyond the offset fails
+	readArmed bool
+	readFrom  map[string]int64
+	readFired bool
 }
 
-type c18FailFile struct{ storage.File }
+type c18FailFile struct {
+	storage.File
+	fs       *c18FailFS
+	failSave bool
+}
 
-func (f c18FailFile) Save() error { return fmt.Errorf("injected write failure") }
+func (f c18FailFile) Save() error {
+	if f.failSave {
+		return fmt.Errorf("injected write failure")
+	}
+	return f.File.Save()
+}
+
+func (f c18FailFile) ReadAt(p []byte, off int64) (int, error) {
+	g := f.fs
+	g.mu.Lock()
+	from, has := g.readFrom[f.File.Name()]
+	hit := g.readArmed && has && off >= from
+	if hit {
+		g.readFired = true
+	}
+	g.mu.Unlock()
+	if hit {
+		return 0, fmt.Errorf("injected read failure at %d", off)
+	}
+	return f.File.ReadAt(p, off)
+}
 
 func (g *c18FailFS) New(path string) storage.File {
-	f := g.FileSystem.New(path)
-	if g.fail {
-		return c18FailFile{f}
-	}
-	return f
+	return c18FailFile{File: g.FileSystem.New(path), fs: g, failSave: g.fail}
 }
 
+// armReads makes every table with two or more entries unreadable behind its first entry.
+func (g *c18FailFS) armReads(ll *sst.LevelList) {
+	from := map[string]int64{}
+	for _, l := range ll.VerifLayout() {
+		for _, ti := range l {
+			var scanErr error
+			n, first := 0, int64(0)
+			for e := range ti.Table.ScanPrefix(nil, &scanErr) {
+				if n == 0 {
+					first = int64(4 + len(e.Key()) + 8 + 1)
+					if !e.IsDelete() {
+						first += int64(4 + len(e.Value()))
+					}
+				}
+				n++
+			}
+			if n >= 2 {
+				from[ti.Name] = first
+			}
+		}
+	}
+	g.mu.Lock()
+	g.readFrom, g.readArmed, g.readFired = from, true, false
+	g.mu.Unlock()
+}
+
+func (g *c18FailFS) disarmReads() bool {
+	g.mu.Lock()
+	defer g.mu.Unlock()
+	g.readArmed = false
+	return g.readFired
+}
 
 type c18Cfg struct {
 	mode                                 string
@@ -455,6 +512,42 @@ func runC18Direct(c lib.Case, cfg c18Cfg) []string {
 			default:
 				out = append(out, fmt.Sprintf("%s unexpected cs=%v err=%v", o, cs != nil, err != nil))
 			}
+		case "compactreadfail":
+			// Compact while every input table with two or more entries is unreadable behind its first entry: the call must
+			// return an error and no change set. Whatever it returns is what the database would then hold: a change set
+			// returned in spite of the fault is applied, so that the reads that follow show what was lost.
+			if d.pending != nil {
+				out = append(out, "busy")
+				continue
+			}
+			o := c18Oracle(d.ll, d.comp)
+			fs.armReads(d.ll)
+			cs, err := d.comp.Compact(d.ll)
+			fired := fs.disarmReads()
+			if !fired {
+				// no input table had a second entry: an ordinary Compact
+				if err != nil {
+					out = append(out, "err "+strings.ReplaceAll(err.Error(), " ", "_"))
+					continue
+				}
+				d.pending = cs
+				flushedSinceCompute = false
+				d.last = d.describe(cs, true)
+				out = append(out, o+" "+d.describe(cs, true))
+				continue
+			}
+			c18Bump("compact-read-fault")
+			if cs != nil {
+				c18Bump("compact-read-fault-ignored")
+				_, added, _ := cs.VerifChangeSet()
+				for _, a := range added {
+					d.ids[a] = d.nextID
+					d.nextID++
+				}
+				d.ll = d.ll.NewWithChangeSet(cs)
+			}
+			d.last = fmt.Sprintf("failed cur=%d", d.comp.VerifMinorLevel())
+			out = append(out, fmt.Sprintf("%s readfault cur=%d", o, d.comp.VerifMinorLevel()))
 		case "apply":
 			if d.pending == nil {
 				out = append(out, "none")
@@ -688,6 +781,10 @@ func c18GenDirect(r *lib.Rng, tier string) lib.Case {
 			ops = append(ops, "compactfail")
 			ops = append(ops, c18ObserveOps()...)
 		}
+		if r.Chance(1, 5) {
+			ops = append(ops, "compactreadfail", "apply")
+			ops = append(ops, c18ObserveOps()...)
+		}
 		ops = append(ops, "compact")
 		if r.Chance(1, 3) {
 			for j := r.Range(1, 2); j > 0; j-- {
@@ -727,6 +824,8 @@ func c18GenDB(r *lib.Rng, tier string) lib.Case {
 			ops = append(ops, "scan "+lib.Hex(lib.Pick(r, [][]byte{nil, {0x61}, {0xff}})))
 		case x < 78:
 			ops = append(ops, "bg f")
+		case x < 80:
+			ops = append(ops, "bg crf")
 		case x < 82:
 			ops = append(ops, "bg cf")
 		case x < 88:
@@ -844,6 +943,8 @@ func c18Fixed() []lib.Case {
 	w40 := strings.Repeat("42", 40)
 	race := []string{"put 6130 " + v40, "bg f", "bg f", "put 6130 " + w40, "bg c", "bg f", "bg race", "get 6130", "scan -",
 		"put 6230 " + v40, "bg f", "bg c", "bg race", "get 6130", "get 6230", "scan -", "bg c", "bg c", "scan -", "chk"}
+	crf := []string{"put 6130 41", "put 7a30 42", "put 6230 " + v40, "bg f", "bg f", "del 7a30", "put 6330 43", "put 6430 " + v40, "bg f", "bg f",
+		"bg crf", "get 7a30", "get 6130", "scan -", "bg c", "bg c", "bg c", "get 7a30", "scan -", "chk"}
 	cf := []string{"put 6130 " + v40, "bg f", "bg f", "put 6130 " + w40, "bg cf", "bg f", "bg c", "get 6130", "scan -",
 		"put 6230 " + v40, "bg f", "bg f", "bg c", "bg c", "get 6130", "get 6230", "scan -", "chk"}
 	// 13 level-0 tables of two checkpoint sources whose sequence numbers (hence ages) tie pairwise
@@ -855,7 +956,24 @@ func c18Fixed() []lib.Case {
 	}
 	tie = append(tie, "load", "valid", "ages", "agesort", "compact", "apply", "valid", "get 1061", "get 2062", "scan -", "safe", "pick", "layout",
 		"compact", "apply", "valid", "get 1061", "get 2062", "scan -", "safe", "pick", "layout")
+	// a read fault on an input table in each kind of compaction step: the key behind the fault (7a) has an older version
+	// (or its only version) that must not come back / vanish
+	rf := func(setup ...string) []string {
+		ops := append([]string{}, setup...)
+		ops = append(ops, "compactreadfail", "apply")
+		ops = append(ops, obs...)
+		ops = append(ops, "compact", "apply")
+		ops = append(ops, obs...)
+		return ops
+	}
+	rfMinorL0 := rf("tbl 2 7a:1:0:01", "tbl 1 61:2:0:02", "tbl 0 61:4:0:03;7a:5:1:-", "tbl 0 6b:6:0:04") // 3 levels: level 2 is the base
+	rfMinorDeep := rf("tbl 3 6d:1:0:09", "tbl 2 61:2:0:01;7a:3:0:02", "tbl 1 61:4:0:03;7a:5:1:-", "tbl 0 6b:6:0:04", "compact", "apply")
+	rfMajor := rf("tbl 3 61:1:0:01;7a:2:0:02", "tbl 1 6b:3:0:03", "tbl 0 61:5:0:04;7a:6:1:-")
 	return []lib.Case{
+		{Header: "M C18 mode=direct levels=3 l0=1 amp=100000 smallest=1099511627776 target=1048576", Ops: rfMinorL0, Tags: []string{"read-fault-minor-l0"}},
+		{Header: "M C18 mode=direct levels=4 l0=1 amp=100000 smallest=1 target=1048576", Ops: rfMinorDeep, Tags: []string{"read-fault-minor-deep"}},
+		{Header: "M C18 mode=direct levels=4 l0=1 amp=1 smallest=1099511627776 target=1048576", Ops: rfMajor, Tags: []string{"read-fault-major"}},
+		{Header: "M C18 mode=db mem=60 target=1048576 l0=2 amp=100000 smallest=1099511627776", Ops: crf, Tags: []string{"db-read-fault"}},
 		{Header: "M C18 mode=db mem=40 target=1048576 l0=1 amp=100000 smallest=1099511627776", Ops: cf, Tags: []string{"flush-inside-compaction-write"}},
 		{Header: "M C18 mode=db mem=40 target=1048576 l0=1 amp=100000 smallest=1099511627776", Ops: race, Tags: []string{"commit-race"}},
 		{Header: "M C18 mode=ckpt levels=6 nsrc=2 order=1.0 mem=40 sl0=100 samp=100000 ssmall=1099511627776 l0=1 amp=150 smallest=1099511627776 target=1048576", Ops: tie, Tags: []string{"tied-ages-13-l0"}},
@@ -970,7 +1088,8 @@ func runC18DB(c lib.Case) []string {
 	defer c07Mu.Unlock()
 	cfg := parseC07Header(c.Header)
 	c07Seq++
-	fs := &c18GateFS{FileSystem: storage.NewMemoryFilesystem().WithWorkingDir(fmt.Sprintf("c18-%d", c07Seq))}
+	ffs := &c18FailFS{FileSystem: storage.NewMemoryFilesystem().WithWorkingDir(fmt.Sprintf("c18-%d", c07Seq))}
+	fs := &c18GateFS{FileSystem: ffs}
 	db := dkv.New(dkv.DBOptions{FileSystem: fs, MemTableSize: uint64(cfg.mem), TargetFileSize: uint64(cfg.target), L0TableNumCompactionTrigger: cfg.l0})
 	comp := db.VerifCompactor()
 	comp.MaxSizeAmplificationPercent = cfg.maxAmp
@@ -1149,6 +1268,94 @@ func runC18DB(c lib.Case) []string {
 					}
 					flushedSinceBegin = true
 					out = append(out, fmt.Sprintf("flushcommit %d", n))
+				}
+			case "crf":
+				// the compaction task's Compact runs while every table with two or more entries is unreadable behind its first
+				// entry: the task must end with an error, the level list unchanged. A change set it holds in spite of a fault
+				// is committed, as the database would, so that the reads that follow show what was lost.
+				if compactQ == 0 {
+					out = append(out, "none")
+					continue
+				}
+				t := s.waitParked("compact")
+				if t == nil {
+					out = append(out, "timeout")
+					continue
+				}
+				if t.label != "dkv.compact.begin" {
+					out = append(out, "skip")
+					continue
+				}
+				orc := c18Oracle(db.VerifLevels(), comp)
+				curBefore := comp.VerifMinorLevel()
+				ffs.armReads(db.VerifLevels())
+				s.release("compact")
+				got := ""
+				var firedAt time.Time
+				deadline := time.Now().Add(schedGrace)
+				for got == "" {
+					select {
+					case e := <-s.events:
+						if e == "dkv.compact.idle" {
+							got = "idle"
+						}
+						continue
+					default:
+					}
+					s.mu.Lock()
+					p := s.parked["compact"]
+					s.mu.Unlock()
+					ffs.mu.Lock()
+					fired := ffs.readFired
+					ffs.mu.Unlock()
+					switch {
+					case p != nil && p.label == "dkv.compact.commit":
+						got = "parked"
+					case fired && firedAt.IsZero():
+						firedAt = time.Now()
+					case fired && time.Since(firedAt) > 150*time.Millisecond:
+						got = "failed" // the task returned the error (there is no hook on that path)
+					case time.Now().After(deadline):
+						got = "timeout"
+					default:
+						time.Sleep(20 * time.Microsecond)
+					}
+				}
+				fired := ffs.disarmReads()
+				switch {
+				case got == "idle":
+					compactQ--
+					c18Bump("db:compact-none")
+					out = append(out, fmt.Sprintf("compactidle %s cur=%d", orc, comp.VerifMinorLevel()))
+				case got == "parked" && !fired:
+					switch {
+					case orc[3] == '1':
+						c18Bump("db:compact-major")
+					case curBefore == 0:
+						c18Bump("db:compact-minor-l0")
+					default:
+						c18Bump("db:compact-minor-deep")
+					}
+					flushedSinceBegin = false
+					out = append(out, fmt.Sprintf("compactbegin %s cur=%d", orc, comp.VerifMinorLevel()))
+				case got == "parked" && fired:
+					c18Bump("db:compact-read-fault-ignored")
+					tc := s.waitParked("compact")
+					cs := tc.payload[1].(*sst.ChangeSet)
+					_, added, _ := cs.VerifChangeSet()
+					for _, a := range added {
+						s.ids[a] = s.nextID
+						s.nextID++
+					}
+					s.release("compact")
+					s.waitEvent("dkv.compact.done")
+					out = append(out, fmt.Sprintf("readfault %s cur=%d", orc, comp.VerifMinorLevel()))
+				case got == "failed":
+					compactQ--
+					c18Bump("db:compact-read-fault")
+					out = append(out, fmt.Sprintf("readfault %s cur=%d", orc, comp.VerifMinorLevel()))
+				default:
+					out = append(out, "timeout")
 				}
 			case "race":
 				// the flush commit and the compaction commit are released together and really race for db.mu: afterwards the
